@@ -405,6 +405,18 @@ def np_argmin(eng, args, kw):
     return NDArr(res) if isinstance(res, list) else res
 
 
+def np_isclose(eng, args, kw):
+    a, b = args[0], args[1]
+    rtol = kw.get('rtol', args[2] if len(args) > 2 else Fraction(1, 100000))
+    atol = kw.get('atol', args[3] if len(args) > 3 else Fraction(1, 100000000))
+    if isinstance(a, NDArr) or isinstance(b, NDArr):
+        return eng.nd_binary(lambda x, y: np_isclose(eng, [x, y, rtol, atol], {}), a, b)
+    AXIOMS_USED.add('np.isclose(a, b) = |a - b| <= atol + rtol * |b| (finite arguments)')
+    cx = isinstance(a, CX) or isinstance(b, CX)
+    d = np_abs(eng, [c_sub(a, b) if cx else r_sub(a, b)], {})
+    return r_cmp('<=', d, r_add(atol, r_mul(rtol, np_abs(eng, [b], {}))))
+
+
 def np_hypot(eng, args, kw):
     a, b = args
     if isinstance(a, NDArr) or isinstance(b, NDArr):
@@ -421,6 +433,20 @@ def np_logical_not(eng, args, kw):
     if isinstance(x, NDArr):
         return NDArr(mapnd(lambda v: b_not(eng.truth(v)), x.data))
     return b_not(eng.truth(x))
+
+
+def np_logical_and(eng, args, kw):
+    a, b = args
+    if isinstance(a, NDArr) or isinstance(b, NDArr):
+        return eng.nd_binary(lambda x, y: b_and(eng.truth(x), eng.truth(y)), a, b)
+    return b_and(eng.truth(a), eng.truth(b))
+
+
+def np_logical_or(eng, args, kw):
+    a, b = args
+    if isinstance(a, NDArr) or isinstance(b, NDArr):
+        return eng.nd_binary(lambda x, y: b_or(eng.truth(x), eng.truth(y)), a, b)
+    return b_or(eng.truth(a), eng.truth(b))
 
 
 def sp_jv(eng, args, kw):
@@ -459,6 +485,9 @@ NP = Namespace('np', {
     'arange': Builtin('np.arange', np_arange), 'dot': Builtin('np.dot', np_dot),
     'logical_not': Builtin('np.logical_not', np_logical_not),
     'hypot': Builtin('np.hypot', np_hypot),
+    'logical_and': Builtin('np.logical_and', np_logical_and),
+    'logical_or': Builtin('np.logical_or', np_logical_or),
+    'isclose': Builtin('np.isclose', np_isclose),
     'prod': Builtin('np.prod', np_prod),
     'tile': Builtin('np.tile', np_tile),
     'reshape': Builtin('np.reshape', np_reshape),
@@ -735,6 +764,34 @@ def b_sum(eng, args, kw):
     return s
 
 
+def _key_less(eng, a, b):
+    """Python's `a < b` on sort keys: numbers, or tuples compared lexicographically (first differing position decides;
+    elements that Python cannot order -- methods, objects, arrays -- raise TypeError when they are reached)."""
+    if isinstance(a, tuple) and isinstance(b, tuple):
+        for x, y in zip(a, b):
+            if is_num(x) and is_num(y) and not isinstance(x, CX) and not isinstance(y, CX):
+                if eng.decide(r_cmp('==', x, y)):
+                    continue
+                return r_cmp('<', x, y)
+            if isinstance(x, tuple) and isinstance(y, tuple):
+                if eng.decide(eng.truth(eng.py_eq(x, y))):
+                    continue
+                return _key_less(eng, x, y)
+            if isinstance(x, AStr) and isinstance(y, AStr) and x.is_lit() and y.is_lit():
+                if x.lit() == y.lit():
+                    continue
+                return x.lit() < y.lit()
+            raise PyRaise('TypeError', ("'<' not supported between sort keys",))
+        return len(a) < len(b)
+    if isinstance(a, tuple) or isinstance(b, tuple):
+        raise PyRaise('TypeError', ("'<' not supported between sort keys",))
+    if not (is_num(a) and is_num(b)) or isinstance(a, CX) or isinstance(b, CX):
+        if isinstance(a, AStr) and isinstance(b, AStr) and a.is_lit() and b.is_lit():
+            return a.lit() < b.lit()
+        raise PyRaise('TypeError', ("'<' not supported between sort keys",))
+    return r_cmp('<', a, b)
+
+
 def b_sorted(eng, args, kw):
     xs = eng.concrete_items(args[0])
     if xs is None:
@@ -758,7 +815,7 @@ def b_sorted(eng, args, kw):
     out = []
     for x, k in zip(xs, keys):
         pos = len(out)
-        while pos > 0 and eng.decide(r_cmp('<', k, out[pos - 1][1])):
+        while pos > 0 and eng.decide(_key_less(eng, k, out[pos - 1][1])):
             pos -= 1
         out.insert(pos, (x, k))
     return SList([('conc', [x for x, _ in out])])
@@ -933,6 +990,17 @@ def sdict_method(eng, d, name):
                 return e.dict_get(d, key)
             return a[1] if len(a) > 1 else None
         return Builtin('dict.get', f)
+    if name in ('items', 'keys', 'values'):
+        def f(e, a, k):
+            ks = getattr(d, 'keys_seq', None)
+            if ks is None or d.writes:
+                raise EngineError('dict.%s without a key sequence model (or after writes)' % name)
+            if name == 'keys':
+                return ks
+            if name == 'values':
+                return SSeq(ks.length, lambda i: e.dict_get(d, e.key_term(ks.at(i))), ks.label + '.values')
+            return SSeq(ks.length, lambda i: (ks.at(i), e.dict_get(d, e.key_term(ks.at(i)))), ks.label + '.items')
+        return Builtin('dict.' + name, f)
     raise EngineError('dict.%s (symbolic)' % name)
 
 
